@@ -28,6 +28,13 @@ mod imp {
     }
     #[inline]
     pub fn reached(_what: &'static str) {}
+    /// How often a harness repeats a run that depends on per-process
+    /// randomness (hash seeds). The solver quantifies over iteration orders, so
+    /// once is enough there; natively every new HashMap draws a fresh seed.
+    #[inline]
+    pub fn repeats() -> usize {
+        1
+    }
 }
 
 #[cfg(not(kani))]
@@ -90,6 +97,9 @@ mod imp {
     }
     pub fn reached(what: &'static str) {
         println!("REPLAY-REACHED {}", what);
+    }
+    pub fn repeats() -> usize {
+        300
     }
 }
 
